@@ -132,10 +132,13 @@ fn execute_sym(start: &str, ops_in: Option<&[String]>, rng: Option<&mut Rng>, ca
                     return Ok(());
                 }
                 let restart = rng.chance(restart_rate);
+                let fan = rng.chance(0.04);
                 let mut k = rng.below(va.len());
                 let shuffle = rng.chance(0.6);
                 let r2 = rng.next();
-                if restart {
+                if fan && !trace.last().map_or(false, |l| l == "?fan") {
+                    "?fan".to_string()
+                } else if restart {
                     "!restart".to_string()
                 } else {
                     if shuffle {
@@ -164,6 +167,23 @@ fn execute_sym(start: &str, ops_in: Option<&[String]>, rng: Option<&mut Rng>, ca
             let b = decode_board(reps[0].piece_board()).map_err(|e| SymFail { monitor: "sym.decode", detail: e })?;
             let s = if reps[0].is_p1_turn_to_move() { Side::Gold } else { Side::Silver };
             reps = parse_replicas(&b, s, reps[0].move_number() as u128).map_err(|e| SymFail { monitor: "sym.restart", detail: e })?;
+            continue;
+        }
+        if op == "?fan" {
+            // every child of this state, in all four replicas: offered sets and results must correspond
+            for a in &va {
+                let text = a.to_string();
+                let mut kids: Vec<GameState> = vec![];
+                for sym in 0..4u8 {
+                    let t = image_action_text(&text, sym).ok_or(SymFail { monitor: "sym.action_text", detail: text.clone() })?;
+                    let ta: Action = eng!("Action::from_str", t.parse::<Action>()).map_err(|e| SymFail { monitor: "sym.action_text", detail: format!("{}: {}", t, e) })?;
+                    kids.push(eng!("take_action", reps[sym as usize].take_action(&ta)));
+                }
+                compare(&kids, evals).map_err(|mut f| {
+                    f.detail = format!("[child {}] {}", text, f.detail);
+                    f
+                })?;
+            }
             continue;
         }
         let a = va.iter().find(|a| a.to_string() == op).ok_or(SymFail { monitor: "sym.invalid_op", detail: format!("{} is not offered", op) })?;
